@@ -136,11 +136,11 @@ def run(tier, seed):
     explore.close_pool()
     total = 0
     classes = set()
-    for n, out, cl in res:
+    for t, (n, out, cl) in zip(tasks, res):
         total += n
         classes |= cl
         for k, det in out:
-            col.add(k, det, det)
+            col.add(k, dict(det, case=report.pack(det['payload'])) if 'payload' in det else det, det, task=t)
     ns, outs = session_writes()
     total += ns
     for k, det in outs:
@@ -169,9 +169,15 @@ def replay(path):
     import json
     d = json.load(open(path))
     w = d['witness']
-    if 'kind' not in w:
-        print(json.dumps(d, indent=1)[:2000])
-        return 1
+    if 'kind' not in w:              # a write of a real session: re-run the session sweep
+        a, b = report.twice(session_writes)
+        if repr(a) != repr(b):
+            print('HARNESS-ERROR: replay is not deterministic')
+            return 2
+        for k, det in a[1]:
+            if k == d['key']:
+                print(k, json.dumps(det, default=str)[:1500])
+        return 1 if d['key'] in [k for k, _ in a[1]] else 0
     payload = w['payload']
     if w['kind'] == 'update':
         msg, asn4 = payload
@@ -185,11 +191,13 @@ def replay(path):
         payload = (fix(msg), asn4)
     elif w['kind'] == 'notification':
         payload = (payload[0], payload[1], bytes.fromhex(payload[2]) if isinstance(payload[2], str) else payload[2])
-    outs = []
-    for _ in range(2):
+    if 'case' in w:
+        payload = report.unpack(w['case'])        # exact (tuples stay tuples)
+    def one():
         out, cl = [], set()
         check_case(w['family'], tuple(w['class_vector']), w['kind'], payload, out, cl, w.get('source'))
-        outs.append(out)
+        return out
+    outs = report.twice(one)
     if repr(outs[0]) != repr(outs[1]):
         print('HARNESS-ERROR: replay is not deterministic')
         return 2
@@ -197,4 +205,6 @@ def replay(path):
         print(k)
         print('   problems:', det['problems'])
         print('   bytes:', det['hex'])
-    return 1 if d['key'] in [k for k, _ in outs[0]] else 0
+    if d['key'] in [k for k, _ in outs[0]]:
+        return 1
+    return report.replay_in_task(d, task)
